@@ -155,7 +155,11 @@ impl<T> RawTable<T> {
     /// While we try to make this incremental where possible, it may require all-at-once resizing.
     #[cfg_attr(feature = "inline-more", inline)]
     pub(crate) fn reserve(&mut self, additional: usize, hasher: impl Fn(&T) -> u64) {
-        let need = self.leftovers.as_ref().map_or(0, |t| t.table.len()) + additional;
+        let need = self
+            .leftovers
+            .as_ref()
+            .map_or(0, |t| t.table.len())
+            .saturating_add(additional);
         if self.table.capacity() - self.table.len() > need {
             // We can accommodate the additional items without resizing, so all is well.
             if cfg!(debug_assertions) {
@@ -198,7 +202,11 @@ impl<T> RawTable<T> {
         additional: usize,
         hasher: impl Fn(&T) -> u64,
     ) -> Result<(), TryReserveError> {
-        let need = self.leftovers.as_ref().map_or(0, |t| t.table.len()) + additional;
+        let need = self
+            .leftovers
+            .as_ref()
+            .map_or(0, |t| t.table.len())
+            .saturating_add(additional);
         if self.table.capacity() - self.table.len() > need {
             // we can accommodate the additional items without resizing, so all good
             if cfg!(debug_assertions) {
@@ -499,10 +507,15 @@ impl<T> RawTable<T> {
         // We also need to make sure we can fit the additional capacity required for `extra`.
         // Normally, that'll be handled by `inserts`, but not always!
         let add = usize::max(extra, inserts);
+        let capacity = match need.checked_add(inserts).and_then(|c| c.checked_add(add)) {
+            Some(capacity) => capacity,
+            None if fallible => return Err(TryReserveError::CapacityOverflow),
+            None => panic!("Hash table capacity overflow"),
+        };
         let new_table = if fallible {
-            raw::RawTable::try_with_capacity(need + inserts + add)?
+            raw::RawTable::try_with_capacity(capacity)?
         } else {
-            raw::RawTable::with_capacity(need + inserts + add)
+            raw::RawTable::with_capacity(capacity)
         };
         let old_table = mem::replace(&mut self.table, new_table);
         if old_table.len() != 0 {
